@@ -43,7 +43,7 @@ func (cx *Ctx) runC07() {
 		k = 24
 		realProcs = 8
 	}
-	gc := genCfg{allowRandomGreedy: false, nastyPct: 5, multiPct: 35, bigPct: 3}
+	gc := genCfg{allowRandomGreedy: false, nastyPct: 5, multiPct: 35, bigPct: 3, veryWidePct: 10, extremePct: 3}
 	// C07 compares results; runs that do not finish within a modest simulated-time budget are skipped
 	// (counted as BUDGET in the evidence), whether they ever finish is C01's question.
 	cx.Budgets.Ticks = 20_000_000
@@ -154,6 +154,8 @@ func (cx *Ctx) runC07() {
 	// ---- (b) history independence
 	cx.phase("C07: histories")
 	histStats := cx.c07Histories(&r, nHist, gc)
+	cx.phase("C07: long histories")
+	longStats := cx.c07LongHistories(&r, cx.count(64, 1600), gc)
 
 	// ---- (d) real-runtime adjunct + fidelity
 	cx.phase("C07: real-runtime adjunct")
@@ -202,6 +204,7 @@ func (cx *Ctx) runC07() {
 		"permutations_by_kind":       permKinds,
 		"faults_fired":               map[string]int{"map-order permutation (non-identity)": sumNonIdentity(permKinds), "runs with a non-zero clock origin": clockVaried, "runs with non-default entropy": entropyVaried},
 		"histories":                  histStats,
+		"long_histories":             longStats,
 		"real_runtime_adjunct":       realStats,
 		"determinism_selftest":       st,
 		"regression_corpus_specs":     corpusN,
@@ -456,7 +459,7 @@ func (cx *Ctx) c07Histories(r *rng, n int, gc genCfg) map[string]any {
 				c = jr.Job.Calls[*c.SameAs]
 				c.SameAs = nil
 			}
-			if c.Opts.P1 == "greedy-random" {
+			if c.Opts.P1 == "greedy-random" || c.NoRef {
 				continue
 			}
 			refJobs = append(refJobs, &spec.Job{ID: len(refJobs), Kind: "multi", Calls: []spec.Call{c}, Res: []spec.Resolution{{Adv: "identity"}}, Budgets: cx.Budgets})
@@ -527,6 +530,12 @@ func (cx *Ctx) historyViolatesRes(calls []spec.Call, res []spec.Resolution) (boo
 		if len(res) == len(calls) {
 			r = res[i]
 		}
+		if c.NoRef {
+			// filler of a long history: executed, not compared (the replay layout keeps one reference slot per call)
+			rj = append(rj, ReplayJob{Pool: "none"})
+			continue
+		}
+		c.Repeat = 0
 		rj = append(rj, ReplayJob{Pool: "simfresh", Job: spec.Job{ID: i + 1, Kind: "multi", Calls: []spec.Call{c}, Res: []spec.Resolution{r}, Budgets: cx.Budgets, WantFull: true}})
 	}
 	rf := &ReplayFile{Property: "C07", Oracle: "c07.history", Jobs: rj}
@@ -822,4 +831,258 @@ func (cx *Ctx) determinismSample(jobs []*spec.Job, results []JobResult, n int) (
 	}
 	return map[string]any{"reexecutions_compared": compared, "mismatches": mismatches, "pooled_vs_fresh_result_differences": histDep,
 		"layouts": "each sampled job twice in fresh processes: 1 worker x GOMAXPROCS=1 and 4 workers x GOMAXPROCS=4, compared with each other (simulator determinism) and with the main run on 16 pooled workers (process-history independence of the library)"}, suspects
+}
+
+// ---------------------------------------------------------------------------------------------
+// (b') long histories. State that survives a call can need a LONG history to matter: a generation counter or a small
+// integer that wraps, a table that reaches its capacity, an eviction. The shape searched here:
+//   [A1 .. Ak, one filler call repeated d times, B1 .. Bk]
+// where Bi is Ai changed in exactly one respect (one edge re-targeted, two targets swapped, or one option changed): a memo
+// keyed too coarsely, or an entry that looks current again after a wrap-around, hands Bi something computed for Ai. Every
+// Ai and Bi is compared with the same call alone in a fresh process; the filler is not. The distance D = k + d between
+// Ai and Bi is taken from powers of two and their neighbours (widths of small integer types, table sizes) and from
+// random values.
+
+func famLayered(r *rng) [][]string {
+	es, _ := famLayeredL(r)
+	return es
+}
+
+// famLayeredL also returns the layer of every node (edges connect adjacent layers only, plus one root above layer 0).
+func famLayeredL(r *rng) ([][]string, map[string]int) {
+	layers := r.between(2, 4)
+	var ids [][]int
+	n := 0
+	for l := 0; l < layers; l++ {
+		w := r.between(2, 4)
+		var row []int
+		for i := 0; i < w; i++ {
+			row = append(row, n)
+			n++
+		}
+		ids = append(ids, row)
+	}
+	var es [][]string
+	for l := 0; l+1 < layers; l++ {
+		for _, b := range ids[l+1] { // every node of the lower layer has a parent: connected downward
+			es = append(es, edge(ids[l][r.intn(len(ids[l]))], b))
+		}
+		for _, a := range ids[l] {
+			if r.chance(50) {
+				es = append(es, edge(a, ids[l+1][r.intn(len(ids[l+1]))]))
+			}
+		}
+	}
+	// one root above, so that the graph is connected
+	for _, a := range ids[0] {
+		es = append(es, edge(n, a))
+	}
+	shuffleEdges(r, es)
+	lay := map[string]int{nid(n): -1}
+	for l, row := range ids {
+		for _, v := range row {
+			lay[nid(v)] = l
+		}
+	}
+	return es, lay
+}
+
+// variantLayered swaps the targets of two edges that run between the same two layers: every node keeps its in- and
+// out-degree and its layer, only the wiring between two adjacent layers changes.
+func variantLayered(r *rng, a spec.Call, lay map[string]int) (spec.Call, bool) {
+	b := a
+	b.Edges = nil
+	for _, e := range a.Edges {
+		b.Edges = append(b.Edges, append([]string(nil), e...))
+	}
+	for try := 0; try < 40; try++ {
+		i, j := r.intn(len(b.Edges)), r.intn(len(b.Edges))
+		ei, ej := b.Edges[i], b.Edges[j]
+		if i == j || lay[ei[0]] != lay[ej[0]] || lay[ei[1]] != lay[ej[1]] || ei[1] == ej[1] || ei[0] == ej[0] {
+			continue
+		}
+		ei[1], ej[1] = ej[1], ei[1]
+		return b, true
+	}
+	return b, false
+}
+
+// variantOf changes a call in exactly one respect.
+func variantOf(r *rng, a spec.Call) spec.Call {
+	b := a
+	b.Edges = nil
+	for _, e := range a.Edges {
+		b.Edges = append(b.Edges, append([]string(nil), e...))
+	}
+	ids := nodeIDs(b.Edges)
+	switch d := r.intn(100); {
+	case d < 45 && len(b.Edges) > 1: // re-target one edge
+		for try := 0; try < 20; try++ {
+			i := r.intn(len(b.Edges))
+			t := ids[r.intn(len(ids))]
+			if t != b.Edges[i][0] && t != b.Edges[i][1] {
+				b.Edges[i][1] = t
+				break
+			}
+		}
+	case d < 75 && len(b.Edges) > 1: // swap the targets of two edges
+		for try := 0; try < 20; try++ {
+			i, j := r.intn(len(b.Edges)), r.intn(len(b.Edges))
+			if i != j && b.Edges[i][1] != b.Edges[j][1] && b.Edges[i][0] != b.Edges[j][1] && b.Edges[j][0] != b.Edges[i][1] {
+				b.Edges[i][1], b.Edges[j][1] = b.Edges[j][1], b.Edges[i][1]
+				break
+			}
+		}
+	default: // same graph, one option changed
+		switch r.intn(5) {
+		case 0:
+			b.Opts.P4 = pick(r, "bk", "sinkcoloring", "valign", "packright")
+			if b.Opts.P4 == a.Opts.P4 {
+				b.Opts.P4 = "valign"
+				if a.Opts.P4 == "valign" {
+					b.Opts.P4 = "packright"
+				}
+			}
+		case 1:
+			b.Opts.P2 = "longestpath"
+			if a.Opts.P2 == "longestpath" {
+				b.Opts.P2 = "ns"
+			}
+		case 2:
+			b.Opts.P1 = "dfs"
+			if a.Opts.P1 == "dfs" {
+				b.Opts.P1 = "greedy"
+			}
+		case 3:
+			b.Opts.NodeSpacing = fptr(float64(r.between(1, 90)))
+		default:
+			b.Opts.FixedSize = &[2]float64{float64(r.between(5, 120)), float64(r.between(5, 60))}
+		}
+	}
+	return b
+}
+
+func (cx *Ctx) c07LongHistories(r *rng, n int, gc genCfg) map[string]any {
+	special := []int{0, 16, 64, 127, 128, 129, 255, 256, 257, 511, 512, 513, 1023, 1024, 1025}
+	if cx.Tier == "thorough" {
+		special = append(special, 2047, 2048, 2049, 4095, 4096, 4097, 65535, 65536, 65537)
+	}
+	var jobs []*spec.Job
+	dist := map[string]int{}
+	for i := 0; i < n; i++ {
+		k := r.between(6, 24)
+		var D int
+		switch i % 4 {
+		case 0: // the width of the smallest integer type: a wrap-around within reach of every tier
+			D = pick(r, 254, 255, 256, 256, 256, 257, 258)
+		case 1, 2:
+			D = special[(i/4*2+i%4-1)%len(special)]
+		default:
+			D = r.between(k, 700)
+		}
+		var as, bs []spec.Call
+		for j := 0; j < k; j++ {
+			var es [][]string
+			var lay map[string]int
+			if r.chance(65) {
+				es, lay = famLayeredL(r)
+			} else {
+				es = famConnected(r, false)
+			}
+			o := spec.Options{}
+			if r.chance(40) {
+				hc := gc
+				hc.allowRandomGreedy = false
+				o = genOptions(r, es, hc)
+				if o.P5 == "splines" {
+					o.P5 = ""
+				}
+				if o.P4 == "ns" || o.P3 == "noop" {
+					o.P4, o.P3 = "", ""
+				}
+			}
+			a := spec.Call{Edges: es, Opts: o}
+			as = append(as, a)
+			if lay != nil && r.chance(70) {
+				if b, ok := variantLayered(r, a, lay); ok {
+					bs = append(bs, b)
+					continue
+				}
+			}
+			bs = append(bs, variantOf(r, a))
+		}
+		filler := spec.Call{Edges: pick(r, [][]string{{"x", "y"}}, [][]string{{"x", "y"}}, [][]string{{"x", "y"}}, [][]string{{"x", "y"}, {"y", "z"}}, [][]string{{"x", "y"}, {"p", "q"}}), NoRef: true}
+		var calls []spec.Call
+		calls = append(calls, as...)
+		if d := D - k; d > 0 {
+			filler.Repeat = d
+			calls = append(calls, filler)
+		}
+		calls = append(calls, bs...)
+		dist[fmt.Sprint(max(D, k))]++
+		b := cx.Budgets
+		jobs = append(jobs, &spec.Job{ID: i, Kind: "history", Calls: calls, Res: []spec.Resolution{{Adv: "identity"}}, Budgets: b})
+	}
+	long := *cx.simFresh
+	long.Timeout = 20 * time.Minute
+	hres := long.Run(jobs, nil)
+	var refJobs []*spec.Job
+	type refKey struct{ h, c int }
+	var refIdx []refKey
+	for hi, jr := range hres {
+		if jr.Res == nil || jr.Res.Error != "" {
+			continue
+		}
+		for ci, c := range jr.Job.Calls {
+			if c.NoRef || ci >= len(jr.Res.Outcomes) {
+				continue
+			}
+			refJobs = append(refJobs, &spec.Job{ID: len(refJobs), Kind: "multi", Calls: []spec.Call{c}, Res: []spec.Resolution{{Adv: "identity"}}, Budgets: cx.Budgets})
+			refIdx = append(refIdx, refKey{hi, ci})
+		}
+	}
+	rres := cx.simFresh.Run(refJobs, nil)
+	byHist := map[int]map[int]JobResult{}
+	for k, rr := range rres {
+		rk := refIdx[k]
+		if byHist[rk.h] == nil {
+			byHist[rk.h] = map[int]JobResult{}
+		}
+		byHist[rk.h][rk.c] = rr
+	}
+	compared, calls, died, longest := 0, 0, 0, 0
+	for hi, jr := range hres {
+		if jr.Timeout {
+			cx.trouble("a long-history job was silent for %v", long.Timeout)
+			continue
+		}
+		if jr.Res == nil || jr.Res.Error != "" {
+			if jr.Res != nil && jr.Res.Error != "" {
+				cx.trouble("long history job: %s", jr.Res.Error)
+			}
+			died++
+			continue
+		}
+		total := 0
+		for _, c := range jr.Job.Calls {
+			total += max(1, c.Repeat)
+		}
+		calls += total
+		longest = max(longest, total)
+		set := []JobResult{jr}
+		for ci := range jr.Job.Calls {
+			if rr, ok := byHist[hi][ci]; ok {
+				set = append(set, rr)
+				compared++
+			} else {
+				set = append(set, JobResult{})
+			}
+		}
+		if v, _, _, _ := cx.oracleHistory(set); v {
+			cx.c07ShrinkHistory(jr.Job)
+		}
+	}
+	return map[string]any{"histories": n, "calls_executed": calls, "longest_history_calls": longest, "fresh_process_references_compared": compared,
+		"history_jobs_that_died": died, "histories_by_distance_between_related_calls": dist,
+		"shape": "[A1..Ak, one filler call repeated d times, B1..Bk]; Bi = Ai changed in exactly one respect (edge re-targeted / two targets swapped / one option changed); every Ai and Bi compared with the same call alone in a fresh process"}
 }
